@@ -7,7 +7,8 @@ from framework import gZ, gopt, glist, gbool
 CFGS = []
 for strategy in ('subquery', 'validity'):
     for keyshape in ('int', 'composite'):
-        for names in ('default', 'custom'):
+        # custom: the internal column names are options of the manager (and of the class); class: of the class only
+        for names in ('default', 'custom', 'class'):
             CFGS.append(dict(strategy=strategy, keyshape=keyshape, names=names))
 
 
@@ -22,7 +23,7 @@ def cfg_options(cfg):
 
 
 def colnames(cfg):
-    if cfg.get('names') == 'custom':
+    if cfg.get('names') in ('custom', 'class'):
         return 'tx_id', 'end_tx_id'
     return 'transaction_id', 'end_transaction_id'
 
@@ -32,6 +33,8 @@ def build_article(cfg):
     import sqlalchemy as sa
 
     def build(env, Base, opts):
+        if opts is not None and cfg.get('names') == 'class':
+            opts = dict(opts, transaction_column_name='tx_id', end_transaction_column_name='end_tx_id')
         attrs = {'__tablename__': 'article', '__versioned__': opts}
         if cfg['keyshape'] == 'composite':
             attrs['id1'] = sa.Column(sa.Integer, primary_key=True, autoincrement=False)
